@@ -48,6 +48,17 @@ def run(ctx):
                 for nocross in (False, True):
                     extra.append(dict(entry=entry, limit=rnd.choice([5, 40, 300]), nlp=rnd.random() < 0.5, fuzzy=entry != "pipeline", thr=0,
                                       ponly=False, pboost=False, allplat=False, plats=plats, nocross=nocross, boost=False, query=qk, corpus="plat"))
+    # platform lists with a blank or partial name in them (--platform "linux," / "lin" / "cross"), and pipeline-only
+    # searches over commands that merely contain a lone '&' or '>'
+    for entry in ("universal", "cached", "pipeline"):
+        for qk in ("lex", "typo"):
+            for plats in (["linux", ""], [" "], [""], ["lin"], ["cross"], ["power"], ["zzz", ""]):
+                for nocross in (False, True):
+                    extra.append(dict(entry=entry, limit=300, nlp=rnd.random() < 0.5, fuzzy=entry != "pipeline", thr=0, ponly=False, pboost=False,
+                                      allplat=False, plats=plats, nocross=nocross, boost=False, query=qk, corpus=rnd.choice(["plat", "mix"])))
+            for allplat in (False, True):
+                extra.append(dict(entry=entry, limit=300, nlp=rnd.random() < 0.5, fuzzy=entry != "pipeline", thr=0, ponly=True, pboost=rnd.random() < 0.5,
+                                  allplat=allplat, plats=[], nocross=False, boost=False, query=qk, corpus="plat"))
     tr, info, ok, rej = engine.run_cases(ctx, scen + extra, ["C04"])
     for x in rej:
         ev = json.loads(x["trace"][x["at"] - 1])
